@@ -46,13 +46,13 @@ PROPS = {
         "assumptions": ["number literals inside parameters are JSON numbers (json.Marshal guarantees it); nesting below encoding/json's limit of 10000"],
     },
     "C03": {
-        "streams": streams(("e2e", 1200, 30000), ("jsonself", 2500, 200000), ("jsonstruct", 4000, 300000), ("scale", 12, 48)),
+        "streams": streams(("e2e", 1200, 30000), ("jsonself", 2500, 200000), ("jsonstruct", 4000, 300000), ("scale", 12, 48), ("client", 1500, 40000, "-tier", "TIER")),
         "rule": "(scale) one dimension far beyond the replayed cases between real client and real service: frames of 1 MiB .. 16 MiB + 1 in both directions, 70 / 300 connections open at once, 5000 / 20000 calls on one connection, a more call with 20000 / 70000 replies; real Connection <-> real Service over filesystem unix socket, abstract unix socket, TCP loopback and a bridge subprocess (cycled); 1-3 calls per connection with generated JSON objects as parameters (integers beyond 2^53, exponents, -0, empty objects, null members, unicode, up to 200 KiB), more-sequences of 0-50 replies, error replies, oneway calls; compared: what the handler reads via GetParameters, every value / continues bit / error the client's receive returns; non-trivial = parameters with nesting >= 2",
         "trusted_base": [JSON_TB, "the four transports are assumed to be reliable ordered byte pipes (sampled, not proved)"],
         "assumptions": ["values are valid UTF-8 for the exact-equality theorems; invalid UTF-8 is replaced by U+FFFD exactly as encoding/json does (theorem parseDoc_render_sanitize, and compared on the wire)"],
     },
     "C10": {
-        "streams": streams(("abort", 1500, 12000, "-tier", "TIER"), ("conn", 1500, 40000), ("gone", 12, 120)),
+        "streams": streams(("abort", 1500, 12000, "-tier", "TIER"), ("conn", 1500, 40000), ("gone", 12, 120), ("stall", 3, 20)),
         "rule": "(gone) a handler streaming replies to a more call whose client reads 0 / 1 / 3 / 40 replies and then disappears (close, tcp reset): the reply must fail, the handler end, the connection be released, Shutdown end serving; (abort) generated request streams (valid call sequences with scripted handlers, built-in calls, mutated frames, wrong-shape JSON, random bytes, incomplete tails, frames > 4 KiB) sent over a real unix or tcp socket served by DoListen; the client stops at sampled byte offsets (quick: 0, end, after/before NULs, random; thorough: every offset of short streams) by orderly half-close (replies and dispatch log must equal the model's for the prefix), hard close or TCP reset without reading (dispatch log must be a prefix of the model's), while a probe connection calls GetInfo after every run; after each run the active count must drop back, at the end Shutdown must end DoListen with nil and count 0; (conn) whole streams through the per-connection loop over a scripted connection; non-trivial = at least one stop inside a frame",
         "trusted_base": [JSON_TB, "bufio.Reader modelled (lean/Varlink/Frame.lean)", "white-box accessors VerifConnCounter / VerifState (overlay)"],
         "assumptions": ["liveness needs: the handler's own code returns; reads and writes on a dead peer return an error (kernel); goroutine scheduling is fair"],
